@@ -147,7 +147,7 @@ def validate(traces, workdir, module="TraceStore", jvms=12, chunk=25, timeout=90
             stats["partial"] = True     # so many violations that TLC did not finish printing them: use what it reported
         stats["states"] += r["distinct"]
         stats["generated"] += r["generated"]
-        for m in re.finditer(r'<<"VIOL", \{([^}]*)\}, "([^"]*)", (\d+)>>', out):
+        for m in re.finditer(r'<<\s*"VIOL",\s*\{([^}]*)\},\s*"([^"]*)",\s*(\d+)\s*>>', out):
             for name in re.findall(r'"(\w+)"', m.group(1)):
                 viols.append((name, m.group(2), int(m.group(3))))
         if "Deadlock reached" in out:
@@ -159,4 +159,6 @@ def validate(traces, workdir, module="TraceStore", jvms=12, chunk=25, timeout=90
         elif "Model checking completed" not in out and "Finished in" not in out or re.search(r"Error: (?!Invariant|Deadlock|The behavior)", out):
             if re.search(r"TLC threw|Parsing or semantic|was not|Error: Evaluating|attempted to|Exception", out) or not viols:
                 raise C.Inconclusive("TLC failed on trace validation:\n" + out[-4000:])
+    if not viols and any("is violated" in r["out"] for r in results):
+        raise C.Inconclusive("TLC reports an invariant violation that the result parser did not understand")
     return sorted(set(viols)), rej, stats
